@@ -12,7 +12,7 @@ import (
 
 func init() {
 	register(&Rule{ID: "ORD-05", Title: "fs.File.Sync: file fsync, then directory fsync until one succeeded; the new-flag is cleared only after it",
-		Props: []string{"C07", "C01"}, Floor: 2, Run: runORD05})
+		Props: []string{"C07", "C01"}, Floor: 1, Run: runORD05})
 	register(&Rule{ID: "ORD-06", Title: "fs.FS.Delete: unlink then directory fsync before reporting success",
 		Props: []string{"C07", "C13"}, Floor: 1, Run: runORD06})
 	register(&Rule{ID: "ORD-07", Title: "directory-sync routines: open(dir) ok then fsync ok on success",
@@ -23,6 +23,19 @@ func init() {
 		Props: []string{"C07", "C03"}, Floor: 5, Run: runORD09})
 	register(&Rule{ID: "ORD-10", Title: "SetStable/CommitState: one Put/Delete in one committed bolt write transaction, in the right bucket",
 		Props: []string{"C04", "C08"}, Floor: 6, Run: runORD10})
+}
+
+// depConstInt looks up an integer constant of a dependency package as compiled for the target platform.
+func depConstInt(p *Prog, path, name string) (int64, bool) {
+	for _, sp := range p.SSA.AllPackages() {
+		if sp.Pkg.Path() == path {
+			if c, ok := sp.Pkg.Scope().Lookup(name).(*types.Const); ok {
+				v, exact := constant.Int64Val(constant.ToInt(c.Val()))
+				return v, exact
+			}
+		}
+	}
+	return 0, false
 }
 
 // constStringOf returns the constant string behind v (also through []byte(...) conversions).
@@ -389,11 +402,14 @@ func runORD08(p *Prog, r *RuleRun) {
 				nOpen++
 				key := cx.Key(ins, "os.OpenFile")
 				fl, ok := ci.Common().Args[1].(*ssa.Const)
-				const oCreate, oExcl = 0x40, 0x80
-				if !ok {
+				oCreate, ok1 := depConstInt(p, "os", "O_CREATE")
+				oExcl, ok2 := depConstInt(p, "os", "O_EXCL")
+				if !ok1 || !ok2 {
+					r.Unknown(key, posOf(p, ins), "os.O_CREATE / os.O_EXCL not found for the target platform")
+				} else if !ok {
 					r.Unknown(key, posOf(p, ins), "open flags are not a compile-time constant")
 				} else if v := fl.Int64(); v&oCreate != 0 && v&oExcl != 0 {
-					r.OK(key, posOf(p, ins), fmt.Sprintf("flags %#x contain O_CREATE|O_EXCL (linux values)", v))
+					r.OK(key, posOf(p, ins), fmt.Sprintf("flags %#x contain O_CREATE|O_EXCL (%#x|%#x on this platform)", v, oCreate, oExcl))
 				} else {
 					r.Fail(key, posOf(p, ins), fmt.Sprintf("new segment files must be created exclusively: flags %#x lack O_CREATE|O_EXCL, an existing file would be silently reused", fl.Int64()))
 				}
